@@ -131,6 +131,8 @@ def main(tier):
                'H5Fcreate with H5F_ACC_EXCL fails if the (tmp) name exists', 'environment stubs; no I/O faults')
     rep.outside_claim('two writers active on the same channel at the same time', 'the same file period recorded in two top-level directories (not allowed by the format)')
     verify_branch(rep)
+    from checks import extglue
+    extglue.run_init(rep, st, tier); extglue.run_py_init_call(rep)      # the session parameters compared are the ones the caller gave
     if not wcommon.gate(rep, st): return rep.finish()
     specs = wcommon.session_specs(tier)
     t0 = time.time()
@@ -138,7 +140,7 @@ def main(tier):
     tot = wcommon.report(rep, specs, results, lambda nm: True, label='session')
     rep.ob('later-session histories explored', 'witness', '%d configurations' % len(specs), tot['q'], tot['s'], tot['paths'])
     res = chx.run_module('reader', names=list(TITLES), per_condition_timeout=120 if tier == 'quick' else 600)
-    chx.report(rep, res, TITLES, replays={'_bounds_merge': lambda kw: REPLAY_BOUNDS % (kw,)}, sigs={k: 'C11.' + k.strip('_') for k in TITLES})
+    chx.report(rep, res, TITLES, replays=dict(__import__('checks.readerside', fromlist=['READ_REPLAYS']).READ_REPLAYS, _bounds_merge=lambda kw: REPLAY_BOUNDS % (kw,)), sigs={k: 'C11.' + k.strip('_') for k in TITLES})
     path = rep.write_replay('sessions_real', REPLAY_SESSION)
     ok, out = rep.run_replay(path)
     import os
